@@ -2082,6 +2082,9 @@ static int dfs_copy(vnaproperty_t **destination, const vnaproperty_t *source)
 	break;
 
     case VNAPROPERTY_MAP:
+	if (vnaproperty_set_subtree(destination, "{}") == NULL) {
+	    return -1;
+	}
 	if ((keys = vnaproperty_keys(source, ".")) == NULL) {
 	    return -1;
 	}
@@ -2111,6 +2114,9 @@ static int dfs_copy(vnaproperty_t **destination, const vnaproperty_t *source)
 	break;
 
     case VNAPROPERTY_LIST:
+	if (vnaproperty_set_subtree(destination, "[]") == NULL) {
+	    return -1;
+	}
 	count = vnaproperty_count(source, ".");
 	for (int i = 0; i < count; ++i) {
 	    vnaproperty_t **new_destination, *new_source;
